@@ -55,8 +55,8 @@ def Zone.lookup (z : Zone) (sec : Int) : Period := Zone.lookupAux sec z.trans z.
 /-- evaluation-time parameters that come from the Go runtime -/
 structure Env where
   zone : Zone          -- `types.TZFromContext(ctx)`
-  todayDays : Int      -- civil date of `time.Now()` **in `time.Local`** (that is what `Time.ToTimeTZ`
-                       -- reads: `now.Year(), now.Month(), now.Day()`), as days since 1970-01-01
+  todayDays : Int      -- civil date of `time.Now().In(zone)` (what `Time.ToTimeTZ` reads:
+                       -- `now := time.Now().In(tz); now.Year(), now.Month(), now.Day()`), as days since 1970-01-01
 deriving Repr, Inhabited
 
 inductive CastErr | notRecognized | tzRequired
@@ -578,7 +578,7 @@ def dateToTimestampTZ (env : Env) (d : DateTime) : DateTime :=
   let c := d.t.civil
   newTimestampTZ (goDate c.year c.month c.day 0 0 0 0 env.zone)
 
-/-- `Time.ToTimeTZ(ctx)`; `time.Now()`'s date comes from `env.todayDays` -/
+/-- `Time.ToTimeTZ(ctx)`; the date of `time.Now().In(tz)` comes from `env.todayDays` -/
 def timeToTimeTZ (env : Env) (d : DateTime) : DateTime :=
   let now := civilFromDays env.todayDays
   let c := d.t.civil
@@ -703,7 +703,8 @@ def compareDatetime (env : Env) (useTZ : Bool) (a b : DateTime) : Except CastErr
   -- compareDate
   | .date, .date => .ok (a.t.compare b.t)
   | .date, .timestamp => .ok (a.t.compare b.t)
-  | .date, .timestamptz => if useTZ then .ok (a.t.compare b.t) else .error .tzRequired
+  | .date, .timestamptz =>
+    if useTZ then .ok ((dateToTimestampTZ env a).t.compare b.t) else .error .tzRequired
   | .date, .time => .ok (-2)
   | .date, .timetz => .ok (-2)
   -- compareTime
@@ -723,12 +724,15 @@ def compareDatetime (env : Env) (useTZ : Bool) (a b : DateTime) : Except CastErr
   -- compareTimestamp
   | .timestamp, .date => .ok (a.t.compare b.t)
   | .timestamp, .timestamp => .ok (a.t.compare b.t)
-  | .timestamp, .timestamptz => if useTZ then .ok (a.t.utc.compare b.t) else .error .tzRequired
+  | .timestamp, .timestamptz =>
+    if useTZ then .ok ((timestampToTimestampTZ env a).t.compare b.t) else .error .tzRequired
   | .timestamp, .time => .ok (-2)
   | .timestamp, .timetz => .ok (-2)
   -- compareTimestampTZ
-  | .timestamptz, .date => if useTZ then .ok (a.t.compare b.t.utc) else .error .tzRequired
-  | .timestamptz, .timestamp => if useTZ then .ok (a.t.compare b.t.utc) else .error .tzRequired
+  | .timestamptz, .date =>
+    if useTZ then .ok (a.t.compare (dateToTimestampTZ env b).t) else .error .tzRequired
+  | .timestamptz, .timestamp =>
+    if useTZ then .ok (a.t.compare (timestampToTimestampTZ env b).t) else .error .tzRequired
   | .timestamptz, .timestamptz => .ok (a.t.compare b.t)
   | .timestamptz, .time => .ok (-2)
   | .timestamptz, .timetz => .ok (-2)
